@@ -271,9 +271,11 @@ def probe_hybrid(ctx):
             shutil.rmtree(base, ignore_errors=True)
 
 
-def ptycho_stream(ctx):
+def ptycho_stream(ctx, drv=None):
     """`Ptychography.save(skip=…)`: the caller's skip names/types must be honoured together with the
-    dataset skip of the default mode, for save_raw_data False and True, both stores"""
+    dataset skip of the default mode, for save_raw_data False and True, both stores.  ONE live object
+    is saved again and again (a history), with rejected calls in between; the skip lists recorded in
+    each file are compared with the model (`normSkip (ptychoSkipArg arg save_raw_data)`)."""
     from quantem.core.io import serialize
     from . import ptycho_tiny as pt
     import torch
@@ -314,18 +316,42 @@ def ptycho_stream(ctx):
         skip_arg = entries[0] if form == "bare" else (tuple(entries) if form == "tuple" else list(entries))
         case = {"ptycho": True, "names": names, "type": tname, "save_raw_data": raw, "store": store, "form": form}
         ctx.count()
+        if j % 4 == 1:
+            # a rejected call on the same live object first (bad compression level / unknown store): it must
+            # leave no trace in what the following valid call writes
+            try:
+                with contextlib.redirect_stdout(io.StringIO()):
+                    if j % 8 == 1:
+                        prob.save(path, store=store, skip=["_snapshots", torch.Tensor], compression_level=17, verbose=False)
+                    else:
+                        prob.save(path + ".tar", store="tar", skip=["_losses", dict], verbose=False)
+                ctx.disagree("ptycho-rejected-call", case, "ValueError", "accepted")
+            except ValueError:
+                ctx.dist["ptycho:rejected-call-before"] += 1
+            except Exception as e:  # noqa
+                ctx.disagree("ptycho-rejected-call", case, "ValueError", type(e).__name__ + ":" + str(e)[:100])
+        recorded = None
         try:
             with contextlib.redirect_stdout(io.StringIO()):
                 if j % 3 == 2:
                     prob.save(path, "w", store, skip_arg, 4, raw, False)      # positional form
                 else:
                     prob.save(path, store=store, skip=skip_arg, save_raw_data=raw, verbose=False)
+                recorded = cx.store_summary(path, tmap, tree=False)
                 back = serialize.load(path)
         except Exception as e:  # noqa
             ctx.pred_fail(f"ptycho-save-raises:{type(e).__name__}", "Ptychography.save/load with skip raised", case, observed=str(e)[:200], required="ok")
             continue
         finally:
             shutil.rmtree(base, ignore_errors=True)
+        if drv is not None and recorded is not None:
+            arg = ({"bare_name": names[0]} if names else {"bare_type": tname}) if form == "bare" else \
+                {"seq": [["n", k] for k in names] + ([["t", tname]] if tname else [])}
+            m = drv.ask({"op": "ptychoskip", "skip": arg, "raw": raw})
+            mm = {"names": sorted(set(m["ok"]["names"])), "types": m["ok"]["types"]}
+            rr = {"names": sorted(set(recorded["names"])), "types": recorded["types"]}
+            if mm != rr:
+                ctx.disagree("ptycho-recorded-lists", case, mm, rr, note="skip lists recorded in the file vs normSkip (ptychoSkipArg …)")
         have = set(vars(back))
         for k in names:
             if k in have:
@@ -519,6 +545,63 @@ def ext_stream(ctx, drv):
         check_case_x(ctx, drv, recipe, save_arg, load_arg, rng.choice(["zip", "dir"]), i, rng.choice(["list", "tuple"]))
 
 
+def fixed_tree(poison_depth=None, kind="obj", how="attr"):
+    """a fixed three-level tree (classes SD / SB / SD) touching every row of the instance relation"""
+    S = sc.S
+    leaf = ["obj", "SD", [["count", ["scalar", S(2)]], ["gain", ["scalar", S(0.5)]], ["p", ["path", "a/b"]],
+                          ["cfg", ["dict", [["k", ["scalar", S(1)]]]]], ["arr", ["nd", "float64", [2], [S(0.5), S(1.5)], "C"]],
+                          ["t", ["mk_tensor", "float32", [2], False, False, [1.5, 0.25]]], ["lst", ["list", [["scalar", S("a")], ["scalar", S(1)]]]],
+                          ["note", ["scalar", S("n")]], ["w", ["np", "float64", S(1.5)]], ["mid", ["tuple", [["scalar", S("x")], ["scalar", S(None)]]]],
+                          ["leaf", ["nprng", "PCG64"]]]]
+    mid = ["obj", "SB", [["count", ["scalar", S(True)]], ["leaf", leaf], ["gain", ["scalar", S(3)]], ["cfg", ["scalar", S(None)]],
+                         ["t", ["mk_module", "Linear", 1]]]]
+    root = ["obj", "SD", [["count", ["scalar", S(7)]], ["note", ["scalar", S("r")]], ["mid", mid], ["w", ["scalar", S(-0.0)]],
+                          ["lst", ["list", [["scalar", S(1)], ["scalar", S(2)]]]], ["cfg", ["dict", []]], ["arr", ["np", "int32", S(4)]]]]
+    if poison_depth is not None:
+        node = [root, mid, leaf][poison_depth]
+        val = ["poison", kind]
+        if how == "list":
+            val = ["list", [["scalar", S("a")], val]]
+        node[2].insert(1, ["handle", val])
+    return root
+
+
+def fixed_block_x(ctx, drv):
+    """fixed cases, reached whatever the seed: every abstract base class alone and `object`, every name the
+    class itself provides (at save / at load), the call forms, and the fail-then-retry history for an
+    unpicklable attribute at each depth"""
+    k = 0
+    for t in cx.ABC_NAMES + ["int", "float", "SD", "AutoSerialize"]:
+        for arg in ({"seq": [["t", t]]}, {"bare_type": t}):
+            check_case_x(ctx, drv, fixed_tree(), arg, {"seq": []}, ("zip", "dir")[k % 2], f"f{k}", ("list", "tuple")[k // 2 % 2])
+            k += 1
+    for n in cx.CLASS_LEVEL_NAMES:
+        check_case_x(ctx, drv, fixed_tree(), {"bare_name": n}, {"seq": []}, ("zip", "dir")[k % 2], f"f{k}")
+        check_case_x(ctx, drv, fixed_tree(), {"seq": []}, {"seq": [["n", n], ["n", "absent"]]}, ("dir", "zip")[k % 2], f"f{k}l")
+        k += 1
+    for t in ("Generator", "ndarray", "SD", "Linear", "dict"):          # load-time type lists (correspondence)
+        check_case_x(ctx, drv, fixed_tree(), {"seq": []}, {"seq": [["t", t], ["n", "w"]]}, ("zip", "dir")[k % 2], f"f{k}")
+        k += 1
+    for d in (0, 1, 2):
+        for kind, how in (("obj", "attr"), ("gen", "attr"), ("obj", "list")):
+            cover = {"seq": [["n", "handle"]]}
+            ops = [{"k": "save", "obj": 0, "path": "p0", "overwrite": False, "bad_level": False, "skip": {"seq": [["n", "count"]]}},       # raises part-way
+                   {"k": "save", "obj": 0, "path": "p0", "overwrite": False, "bad_level": True, "skip": cover},                            # rejected
+                   {"k": "save", "obj": 0, "path": "p0", "overwrite": False, "bad_level": False, "skip": {"bare_name": "handle"}},          # the retry
+                   {"k": "save", "obj": 0, "path": "p0", "overwrite": False, "bad_level": False, "skip": cover},                            # FileExistsError
+                   {"k": "load", "path": "p0", "skip": {"seq": []}},
+                   {"k": "save", "obj": 0, "path": "p1", "overwrite": True, "bad_level": False, "skip": {"seq": [["n", "handle"], ["n", "count"], ["t", "Mapping"]]}},
+                   {"k": "load", "path": "p1", "skip": {"bare_name": "note"}},
+                   {"k": "save", "obj": 0, "path": "p0", "overwrite": True, "bad_level": False, "skip": {"seq": [["t", "Real"]]}},         # raises again
+                   {"k": "load", "path": "p0", "skip": {"seq": [["n", "mid"]]}},
+                   {"k": "load", "path": "p2", "skip": {"seq": []}}]
+            if kind == "obj" and how == "attr":
+                ops.insert(8, {"k": "save", "obj": 0, "path": "p0", "overwrite": True, "bad_level": False, "skip": {"seq": [["t", "unpicklable"], ["t", "Sized"]]}})
+            run_history(ctx, drv, [fixed_tree(d, kind, how)], ops, ("zip", "dir")[k % 2], f"f{k}")
+            k += 1
+    ctx.dist["x:fixed-block-cases"] += k
+
+
 def run_history(ctx, drv, pool_recipes, ops, store, idx):
     """a history of save / load calls on the same live objects and one directory: every call's outcome
     is compared with the model (`srun`), and every load is compared with the stripped graph of the
@@ -673,9 +756,10 @@ def run(ctx):
             ctx.dist[f"max_name_depth:{max([max(nd[k]) for k in names if k in nd] + [-1])}"] += 1
             ctx.dist[f"types_hit_nested:{sum(1 for t in types if t in nested_types)}"] += 1
             check_case(ctx, drv, recipe, names, types, rng.choice(["zip", "dir"]), i)
+        fixed_block_x(ctx, drv)
         ext_stream(ctx, drv)
         history_stream(ctx, drv)
-        ptycho_stream(ctx)
+        ptycho_stream(ctx, drv)
     finally:
         drv.close()
 
